@@ -551,6 +551,24 @@ class Gen(object):
             cands = [room]
         return self.pick(cands)
 
+    def spanning_alloc(self, m, providers, excluding):
+        """A valid allocation with one class on EACH of the providers."""
+        out = {}
+        extra = {}
+        for rp in providers:
+            pairs = sorted(k for k in m.inventories if k[0] == rp)
+            self.rng.shuffle(pairs)
+            for (_, rc) in pairs:
+                room = self._room(m, rp, rc, excluding, None, extra)
+                if room > 0:
+                    n = self._valid_amount(m.inventories[(rp, rc)], room)
+                    out[rp] = {rc: n}
+                    extra[(rp, rc)] = n
+                    break
+            if rp not in out:
+                return None
+        return out
+
     def _valid_alloc(self, m, excluding, inventories=None, extra=None,
                      max_rp=2):
         invs = m.inventories if inventories is None else inventories
@@ -867,7 +885,9 @@ class Gen(object):
         ex = self.existing_p(m) or self.P[:1]
         u = self.pick(ex if self.chance(0.9) else self.P)
         c = self.pick(self.C)
-        r = self.rng.randrange(16)
+        r = self.rng.randrange(18)
+        if r >= 16:
+            r = 9       # project/user/type usage totals get extra weight
         if r == 0:
             return {'m': 'GET', 'p': '/resource_providers/' + u,
                     'v': self.ver()}
@@ -898,6 +918,8 @@ class Gen(object):
             if self.chance(0.4):
                 q += '&user_id=' + self.pick(self.users)
             v = self.ver('1.9')
+            if self.chance(0.4):
+                v = self.ver('1.38')
             if M.ver(v) >= (1, 38) and self.chance(0.6):
                 q += '&consumer_type=' + self.pick(
                     TYPES + ['all', 'unknown'])
